@@ -407,6 +407,26 @@ def route_answer_discipline(ctx: Ctx, rule: str):
                      "the pending-request record: a second answer for the same request (e.g. from a "
                      "deadline fallback racing the worker) is routed and transmitted as well",
                      rule=rule)
+    # the per-connection pending tables are only ever grown and shrunk in place: the reader
+    # thread files requests while application threads remove answered ones, so a rebuilt copy
+    # stored back over the live dict resurrects records removed in between
+    cons_c = "pending-table:in-place"
+    ctx.inst(cons_c, rule=rule)
+    for fn_ in nc.all_funcs:
+        for x in A.walk_no_nested(fn_.node):
+            if not isinstance(x, (ast.Assign, ast.AnnAssign)) or x.value is None:
+                continue
+            for t in A.store_targets(x):
+                if isinstance(t, ast.Subscript) and A.dotted(t.value) == "self._peer_waiting_answer":
+                    fresh = A.resolve_local_chain(fn_.node, x.value).replace(" ", "") in ("{}", "dict()")
+                    if not fresh:
+                        ctx.fail(cons_c, fn_.loc(x), f"`{ast.unparse(x)[:90]}` in {fn_.qualname} replaces a "
+                                 f"connection's pending-request table by another dict object: a record "
+                                 f"that route_answer removed from the old dict between the copy and "
+                                 f"this store is back in the table, and a second answer for that "
+                                 f"request is routed and transmitted", rule=rule,
+                                 expected="the table of a connection is created empty once and then "
+                                          "only modified in place", observed=ast.unparse(x.value)[:80])
     # the removal is the atomic test-and-remove: it fails when the record is already gone
     cons_a = "route_answer:removal-is-exclusive"
     ctx.inst(cons_a, rule=rule)
@@ -1089,3 +1109,304 @@ def waiter_table_synchronised(ctx: Ctx, rule: str):
                  f"a common lock: an answer delivered after the sender's wait has timed out but before "
                  f"its `finally` removes the entry is stored in the abandoned slot - the sender raises "
                  f"TimeoutError and the answer reaches neither the sender nor handle_answer", rule=rule)
+
+
+def io_loop_every_round(ctx: Ctx, rule: str, want=("timers", "reconnect")):
+    """Every iteration of the I/O loop (Node._handle_connections) runs the timer pass over all
+    connections and the reconnect scan, whatever select() returned: a round that handled socket
+    events must not skip them (on a node under steady traffic every round has events, so a timer
+    that only runs on idle rounds never fires).  The only tolerated gate is the node's own
+    stopping flag."""
+    from ..srcmodel import AnalysisError
+    model = ctx.model
+    nc = model.cls("node.node", "Node")
+    hc = nc.methods.get("_handle_connections")
+    if hc is None:
+        raise AnalysisError("Node._handle_connections not found")
+    ctx.use(hc)
+    ctx.rule(rule, "every round of the I/O loop runs the due periodic work (timer pass over every "
+                   "connection, reconnect scan), also rounds in which select() reported events",
+             floor=len(want))
+    g = cfg_of(hc)
+    outer = [n for n in g.nodes if n.kind == "loop"]
+    if not outer:
+        raise AnalysisError("_handle_connections has no loop")
+    head = min(outer, key=lambda n: getattr(n.ast, "lineno", 0))
+    def only_stopping(e):
+        attrs = {A.dotted(x) for x in ast.walk(e) if isinstance(x, ast.Attribute)}
+        names = {x.id for x in ast.walk(e) if isinstance(x, ast.Name)}
+        return attrs == {"self._stopping"} and names == {"self"}
+    stop_tests = [n for n in g.nodes if n.kind == "test" and n.ast is not None and only_stopping(n.ast)]
+    sel = [n for n in g.nodes if n.kind == "stmt" and any(
+        A.call_name(c).endswith("select.select") or A.call_name(c) == "select" for c in n.calls())]
+    starts = [d for l, d in head.succ]
+    work = {}
+    if "timers" in want:
+        its = [n for n in g.nodes if n.kind == "iter" and "connections" in ast.unparse(n.ast.iter)
+               and any(m.has_call("_check_timers") for l, m in n.succ if l == "iter")]
+        work["timers"] = (its, "the timer pass (`for conn in connections: _check_timers(conn)`)",
+                          "time-outs of the capabilities exchange, the watchdog and the idle "
+                          "clock never fire on a node whose select() rounds always carry events")
+    if "reconnect" in want:
+        rc = [n for n in g.nodes if n.kind == "stmt" and n.has_call("_reconnect_peers")]
+        work["reconnect"] = (rc, "the reconnect scan (`self._reconnect_peers()`)",
+                             "a lost persistent peer is not dialled again while other connections "
+                             "keep the node busy")
+    for k, (nodes, what, harm) in work.items():
+        cons = f"_handle_connections:every-round({k})"
+        ctx.inst(cons, rule=rule)
+        if not nodes:
+            ctx.fail(cons, hc.loc(), f"the I/O loop does not contain {what}", rule=rule)
+            continue
+        # only rounds that got as far as select() count (the stop branch returns before it)
+        src = [d for s in sel for l, d in s.succ] or starts
+        r = g.reach(src, blocked=list(nodes) + stop_tests)
+        if head in r:
+            ctx.fail(cons, g.loc(nodes[0]), f"an iteration of the I/O loop can return to select() "
+                     f"without {what}: {harm}", rule=rule,
+                     expected="every path select() -> next round passes through it",
+                     observed="a path around it exists (early `continue` or a condition on what "
+                              "select() returned)")
+
+
+# ---------------------------------------------------------------------------------------------
+# clocks
+TIME_SOURCES = {"time.time": "wall", "time.time_ns": "wall", "datetime.datetime.now": "wall",
+                "datetime.now": "wall", "datetime.datetime.utcnow": "wall", "datetime.utcnow": "wall",
+                "time.monotonic": "monotonic", "time.monotonic_ns": "monotonic",
+                "time.perf_counter": "perf", "time.perf_counter_ns": "perf",
+                "time.process_time": "cpu", "time.thread_time": "cpu"}
+
+
+def clock_sources(model, module, expr: ast.AST, cls=None, depth: int = 3) -> set[str]:
+    """The time sources an expression reads: calls of time.time / time.monotonic / ... directly,
+    through a module-level helper or a method / property of *cls* (followed to *depth*)."""
+    out: set[str] = set()
+    if expr is None or depth < 0:
+        return out
+
+    def returns_of(fi):
+        r: set[str] = set()
+        for x in A.walk_no_nested(fi.node):
+            if isinstance(x, ast.Return) and x.value is not None:
+                r |= clock_sources(model, fi.module, x.value, fi.cls, depth - 1)
+        return r
+    for n in ast.walk(expr):
+        if isinstance(n, ast.Call):
+            nm = A.call_name(n)
+            if nm in TIME_SOURCES:
+                out.add(TIME_SOURCES[nm] + ":" + nm.split("_ns")[0])
+                continue
+            if isinstance(n.func, ast.Name):
+                b = module.lookup(n.func.id)
+                if b is not None and b.kind == "func":
+                    fi = b.module.funcs.get(b.node.name)
+                    if fi is not None:
+                        out |= returns_of(fi)
+                elif b is not None and b.kind == "extattr" and f"{b.target}.{b.attr}" in TIME_SOURCES:
+                    q = f"{b.target}.{b.attr}"
+                    out.add(TIME_SOURCES[q] + ":" + q.split("_ns")[0])
+            elif isinstance(n.func, ast.Attribute) and A.dotted(n.func.value) in ("self", "cls") and cls is not None:
+                fi = model.find_method(cls, n.func.attr)
+                if fi is not None:
+                    out |= returns_of(fi)
+        elif isinstance(n, ast.Attribute) and A.dotted(n.value) == "self" and cls is not None \
+                and isinstance(n.ctx, ast.Load):
+            fi = model.find_method(cls, n.attr)
+            if fi is not None and fi.is_property:
+                out |= returns_of(fi)
+    return out
+
+
+def clock_agreement(ctx: Ctx, rule: str, attrs: dict):
+    """A deadline is `now - <stamp>`: the expression that reads the clock and every statement
+    that stores the stamp must use the same time source (time.time() vs time.monotonic() differ
+    by decades: a stamp taken from one and compared with the other never - or at once -
+    expires).  *attrs*: {(class module, class name, attribute): [reader property names]}."""
+    model = ctx.model
+    ctx.rule(rule, "every time stamp is written and compared with one and the same clock", floor=len(attrs))
+    node_pkg = [m for m in model.modules.values() if ".node" in m.name or m.name.endswith("node")]
+    for (mod, cname, attr), readers in attrs.items():
+        ci = model.cls(mod, cname)
+        cons = f"{cname}.{attr}:one-clock"
+        w: dict[str, set[str]] = {}
+        for fi in model.all_funcs():
+            if fi.module not in node_pkg:
+                continue
+            for x in A.walk_no_nested(fi.node):
+                if isinstance(x, (ast.Assign, ast.AugAssign, ast.AnnAssign)) and x.value is not None and any(
+                        isinstance(t, ast.Attribute) and t.attr == attr for t in A.store_targets(x)):
+                    if isinstance(x.value, ast.Constant):
+                        continue
+                    own = fi.cls if any(A.dotted(t.value) == "self" for t in A.store_targets(x)
+                                        if isinstance(t, ast.Attribute)) else None
+                    src = clock_sources(model, fi.module, x.value, own or fi.cls)
+                    w[f"{fi.qualname}:{getattr(x, 'lineno', 0)}"] = src
+        r: dict[str, set[str]] = {}
+        for rn in readers:
+            fi = model.find_method(ci, rn)
+            if fi is None:
+                ctx.error(f"{cname}.{rn} not found", rule=rule)
+                continue
+            ctx.use(fi)
+            for x in ast.walk(fi.node):
+                if isinstance(x, ast.BinOp) and isinstance(x.op, ast.Sub) and isinstance(x.right, ast.Attribute) \
+                        and x.right.attr == attr:
+                    r[f"{fi.qualname}"] = clock_sources(model, fi.module, x.left, ci)
+        ctx.inst(cons, rule=rule, sample={"writers": {k: sorted(v) for k, v in w.items()},
+                                          "readers": {k: sorted(v) for k, v in r.items()}})
+        allsrc = set().union(*w.values(), *r.values()) if (w or r) else set()
+        empty = [k for k, v in list(w.items()) + list(r.items()) if not v]
+        if not r:
+            ctx.fail(cons, ci.loc(), f"no `now - self.{attr}` reader found among {readers}", rule=rule)
+        elif not w:
+            ctx.fail(cons, ci.loc(), f"`{attr}` is never stamped with a clock value", rule=rule)
+        elif empty:
+            ctx.fail(cons, ci.loc(), f"`{attr}`: {empty} do not read any clock", rule=rule)
+        elif len(allsrc) != 1:
+            ctx.fail(cons, ci.loc(), f"`{cname}.{attr}` is stamped and compared with different clocks: "
+                     f"writers { {k: sorted(v) for k, v in w.items()} }, readers "
+                     f"{ {k: sorted(v) for k, v in r.items()} } - the elapsed time computed from it is "
+                     f"meaningless (hugely negative or hugely positive), its deadline never or "
+                     f"immediately expires", rule=rule,
+                     expected="one time source for stamp and comparison", observed=sorted(allsrc))
+
+
+# ---------------------------------------------------------------------------------------------
+# keys of the flat transaction tables
+def key_shape(fn: ast.FunctionDef, e: ast.expr):
+    """('str' | 'tuple', [last attribute name of every field]) of a table key expression, locals
+    resolved through their single assignment; None when it is neither an f-string nor a tuple."""
+    try:
+        v = ast.parse(A.resolve_local_chain(fn, e), mode="eval").body
+    except SyntaxError:
+        return None
+    if isinstance(v, ast.JoinedStr):
+        return "str", [ast.unparse(x.value).split(".")[-1] for x in v.values
+                       if isinstance(x, ast.FormattedValue)]
+    if isinstance(v, ast.Tuple):
+        return "tuple", [ast.unparse(x).split(".")[-1] for x in v.elts]
+    return None
+
+
+def key_fields_flat(fn: ast.FunctionDef, e: ast.expr):
+    """Field list in the historical notation of the rules (['ident', ':', 'hop_by...', ...])
+    for both key kinds."""
+    ks = key_shape(fn, e)
+    if ks is None:
+        return None
+    out = []
+    for i, f_ in enumerate(ks[1]):
+        if i:
+            out.append(":")
+        out.append(f_)
+    return out
+
+
+def transaction_table_keys(ctx: Ctx, rule: str, tables=("_app_waiting_answer", "_origin_waiting_answer")):
+    """Writer, readers and the purge of each flat transaction table agree on the key: one kind
+    (formatted string or tuple), the same fields in the same order at every site, and a purge
+    predicate that fits that kind (str.startswith("<ident>:") / key[0] == ident).  A table whose
+    writer builds tuples while remove_peer_connection calls .startswith on the keys makes every
+    removal of a connection with an unanswered request raise AttributeError."""
+    from ..srcmodel import AnalysisError
+    model = ctx.model
+    nc = model.cls("node.node", "Node")
+    ctx.rule(rule, "flat transaction tables: every site builds the key the same way and the purge "
+                   "on connection removal tests it in a way that fits its type", floor=len(tables))
+    for T in tables:
+        cons = f"{T}:key-agreement"
+        sites = []   # (func, node, shape)
+        purges = []  # (func, loop, keyvar)
+        for fn_ in nc.all_funcs:
+            if fn_.name == "__init__":
+                continue
+            for x in A.walk_no_nested(fn_.node):
+                k = None
+                if isinstance(x, ast.Subscript) and A.dotted(x.value) == f"self.{T}":
+                    k = x.slice
+                elif isinstance(x, ast.Compare) and len(x.ops) == 1 and isinstance(x.ops[0], (ast.In, ast.NotIn)) \
+                        and A.dotted(x.comparators[0]) == f"self.{T}":
+                    k = x.left
+                elif isinstance(x, ast.Call) and isinstance(x.func, ast.Attribute) \
+                        and x.func.attr in ("get", "pop", "setdefault") \
+                        and A.dotted(x.func.value) == f"self.{T}" and x.args:
+                    k = x.args[0]
+                elif isinstance(x, (ast.For, ast.comprehension)) and f"self.{T}" in ast.unparse(x.iter) \
+                        and isinstance(x.target, ast.Name):
+                    purges.append((fn_, x, x.target.id))
+                    continue
+                if k is None:
+                    continue
+                if isinstance(k, ast.Name) and any(k.id == kv for f2, _, kv in purges if f2 is fn_):
+                    continue   # the loop variable of a purge
+                sites.append((fn_, x, key_shape(fn_.node, k)))
+        ctx.inst(cons, rule=rule, sample={"sites": [f"{f_.name}:{getattr(x, 'lineno', 0)}={s}" for f_, x, s in sites][:8],
+                                          "purges": [f_.name for f_, _, _ in purges]})
+        if not sites:
+            raise AnalysisError(f"no key site of Node.{T} found")
+        # loop variables of purges are collected after some sites: filter again
+        pv = {(id(f2.node), kv) for f2, _, kv in purges}
+        sites = [(f_, x, s) for f_, x, s in sites
+                 if not (s is None and isinstance(_key_of(x), ast.Name) and (id(f_.node), _key_of(x).id) in pv)]
+        shapes = {(s[0], tuple(s[1])) if s else None for _, _, s in sites}
+        if None in shapes:
+            f_, x, _ = [t for t in sites if t[2] is None][0]
+            ctx.fail(cons, f_.loc(x), f"a key of Node.{T} in {f_.qualname} is neither a formatted string "
+                     f"nor a tuple of the transaction's identifiers", rule=rule)
+            continue
+        if len(shapes) != 1:
+            ctx.fail(cons, sites[0][0].loc(sites[0][1]),
+                     f"the sites of Node.{T} build its key differently: "
+                     f"{sorted((f_.name, s) for f_, _, s in sites)} - what one site files another "
+                     f"never finds", rule=rule)
+            continue
+        kind, fields = next(iter(shapes))
+        if not purges:
+            ctx.fail(cons + "#purge", nc.loc(), f"Node.{T} is never purged of the entries of a removed "
+                     f"connection", rule=rule)
+        for fn_, loop, kv in purges:
+            body = loop.body if isinstance(loop, ast.For) else []
+            txt = " ".join(ast.unparse(b) for b in body) if body else ""
+            tests = [t for b in body for t in ast.walk(b) if isinstance(t, (ast.If, ast.IfExp))]
+            ok = False
+            for t in tests:
+                te = t.test
+                s_ = A.resolve_local_chain(fn_.node, te).replace(" ", "").replace('"', "'")
+                if kind == "str" and s_.startswith(f"{kv}.startswith(f'{{") and ".ident}:')" in s_:
+                    ok = True
+                if kind == "tuple" and ((s_.startswith(f"{kv}[0]==") and s_.endswith(".ident"))
+                                        or (s_.endswith(f".ident=={kv}[0]"))):
+                    ok = True
+            if not ok:
+                ctx.fail(cons + "#purge", fn_.loc(loop), f"the purge of Node.{T} in {fn_.qualname} does not "
+                         f"test the keys in a way that fits their type ({kind} of {list(fields)}): it "
+                         f"raises (AttributeError / TypeError escapes remove_peer_connection before "
+                         f"the peer record is reset) or never matches", rule=rule,
+                         expected="key.startswith(f'{conn.ident}:') for string keys, "
+                                  "key[0] == conn.ident for tuple keys", observed=txt[:120])
+
+
+def _key_of(x):
+    if isinstance(x, ast.Subscript):
+        return x.slice
+    if isinstance(x, ast.Compare):
+        return x.left
+    if isinstance(x, ast.Call) and x.args:
+        return x.args[0]
+    return None
+
+
+def selects_own_entries(fact) -> bool:
+    """A must-fact that restricts a purge to the entries of one connection: the key's prefix /
+    first element equals that connection's ident (string keys: key.startswith(f"{c.ident}:"),
+    tuple keys: key[0] == c.ident)."""
+    s_, op, v, t = fact
+    s_, v = str(s_), str(v)
+    if not t:
+        return False
+    if ".startswith(" in s_ and ".ident" in s_ and op == "truthy":
+        return True
+    if op.startswith("=="):
+        return (s_.endswith(".ident") and v.endswith("[0]")) or (s_.endswith("[0]") and v.endswith(".ident"))
+    return False
